@@ -4,6 +4,7 @@ import (
 	"archive/tar"
 	"bytes"
 	"compress/gzip"
+	"crypto/sha256"
 	"context"
 	"errors"
 	"fmt"
@@ -105,6 +106,17 @@ func (w *World) extraEnabled() []core.WCmd {
 				}
 				if len(edge) > 0 {
 					k = edge[r.Intn(len(edge))]
+				}
+			}
+			if r.Chance(1, 8) {
+				var iss []string
+				for _, kk := range keys {
+					if strings.HasPrefix(kk, "issuer/") {
+						iss = append(iss, kk)
+					}
+				}
+				if len(iss) > 0 {
+					k = iss[r.Intn(len(iss))]
 				}
 			}
 			kinds := []string{"delete", "truncate", "flip", "swap", "rollback", "append"}
@@ -334,8 +346,35 @@ func (w *World) tamper(st *Store, c core.Cmd) bool {
 	default:
 		return false
 	}
+	st.tamperedAt[c.Op] = w.sim.Step
+	if c.S == "swap" {
+		keys := st.keys()
+		st.tamperedAt[keys[int(c.N)%len(keys)]] = w.sim.Step
+	}
 	w.sim.Probe("fault.tamper." + c.S)
 	return true
+}
+
+// checkIssuersAtAck: an incarnation that started after an issuer object was
+// altered compares the object before it trusts it, so it cannot acknowledge an
+// entry of that issuer while the altered object is still there (C08).
+func (o *oracle) checkIssuersAtAck(in *Instance, s *Submission) {
+	if !o.tampered {
+		return
+	}
+	for _, iss := range s.Item.Entry.Issuers {
+		fp := sha256.Sum256(iss)
+		key := fmt.Sprintf("issuer/%x", fp)
+		obj, ok := in.store.objs[key]
+		if !ok || sha256.Sum256(obj.Data) == fp {
+			continue
+		}
+		if at, ok := in.store.tamperedAt[key]; ok && at < in.loadStep {
+			o.v("C08", "ack-with-altered-issuer", "sub %d acknowledged by i%d.%d (started at step %d) although %s was altered at step %d and still holds other bytes", s.ID, in.idx, in.inc, in.loadStep, key, at)
+		} else {
+			o.w.sim.Probe("tamper.issuer.after-start")
+		}
+	}
 }
 
 func (s *Store) tamperPut(key string, data []byte, like *Obj) {
@@ -411,7 +450,13 @@ func (o *oracle) recordIntendedFrom(key string, data []byte, stagedSize int64) {
 	}
 	for i, e := range es {
 		idx := c.N*ref.TileWidth + int64(i)
-		o.intended[idx] = append(o.intended[idx], e)
+		dup := false
+		for _, x := range o.intended[idx] {
+			dup = dup || x.LeafHash() == e.LeafHash()
+		}
+		if !dup {
+			o.intended[idx] = append(o.intended[idx], e)
+		}
 		if o.tampered && stagedSize >= 0 && idx < int64(len(o.preTamper)) && e.LeafHash() != o.preTamper[idx].LeafHash() {
 			o.stagedBad = append(o.stagedBad, stagedBad{stagedSize, idx, o.w.sim.Step})
 		}
